@@ -13,7 +13,7 @@ for pid in ids:
         if not m:
             continue
         name = f'{m.group(1)}-{m.group(2)}'
-        if os.path.exists(f'/verif/seeded/{name}/meta.json'):
+        if os.path.exists(f'/verif/seeded/{name}/meta.json') or os.path.exists(f'/verif/retired/{name}/meta.json'):
             print(name, 'already stored'); continue
         if 'NOT CONFIRMED' in line or 'CONFIRMED' not in line:
             print(name, 'NOT CONFIRMED:', line[:300]); continue
